@@ -91,6 +91,7 @@ mut('C16-duplicate-copy-before-original-drained', (P + 'duplicate.py', "    db.i
 mut('C20-append-as-rewrite', (P + 'dumpers/to_sql.py', "            if mode == 'rewrite' and '' in storage.buckets:\n", "            if mode in ('rewrite', 'append') and '' in storage.buckets and self.batch_size == 2:\n"))
 mut('C20-updated-flag-always-false', (P + 'dumpers/to_sql.py', "            row[self.updated_column] = updated\n", "            row[self.updated_column] = bool(updated) and self.use_bloom_filter\n"))
 mut('C20-update-keys-first-field-only', (P + 'dumpers/to_sql.py', "                if update_keys is None:\n                    update_keys = schema_descriptor.get('primaryKey', [])\n", "                if update_keys is None:\n                    update_keys = schema_descriptor.get('primaryKey', [])\n                update_keys = update_keys[:1]\n"))
+mut('C16-iterable-name-collides', (H + 'iterable_loader.py', "            while 'res_{}'.format(index) in existing:\n                index += 1\n", "            pass\n"))
 
 
 def main():
